@@ -154,13 +154,14 @@ def build_tool():
     src = os.path.join(VERIF, "tools", "ajx", "ajx.cc")
     flags = subprocess.check_output(["llvm-config-14", "--cxxflags"],
                                     text=True).split()
+    tmp = "%s.tmp.%d" % (AJX, os.getpid())
     cmd = ["clang++"] + flags + [
-        "-fno-rtti", "-O1", src, "-o", AJX + ".tmp",
+        "-fno-rtti", "-O1", src, "-o", tmp,
         "/usr/lib/llvm-14/lib/libclang-cpp.so.14",
         "/usr/lib/llvm-14/lib/libLLVM-14.so"
     ]
     subprocess.check_call(cmd)
-    os.replace(AJX + ".tmp", AJX)
+    os.replace(tmp, AJX)
 
 
 class AnalysisBroken(Exception):
